@@ -3723,3 +3723,46 @@ def r09_14(ctx):
                         ctx.bad("udp::Packet::check_len|empty-datagram-rejected", "udp::Packet::check_len lets a packet pass only if its length field is greater than the header length: "
                                 "a valid datagram without payload (length 8) is dropped and never reaches the bound socket", body=b, bb=bi)
     ctx.need(n >= 1, "comparison of the UDP length field with the header length on the accepting path")
+
+
+@rule('R04.11', ['C04', 'C05'], floor=2, clause='the window scale a socket announces (and shifts its own window by) never exceeds 14: every value stored into remote_win_shift is 0 or clamped with min(.., 14) (RFC 7323: a larger shift count must be read as 14 by the peer, so the two ends would disagree about the advertised window)')
+def r04_11(ctx):
+    F = ctx.F
+    n = 0
+    for w in F.field_writes():
+        if not (w['adt'] == SOCK and w['field'] == 'remote_win_shift' and w['kind'] == 'store') or '::test' in w['fn']:
+            continue
+        b = F.bodies[w['fn']]
+        o = strip(simplify(store_origin(F, b, w)))
+        n += 1
+        _check_shift(ctx, b, w['bb'], o)
+    # Socket::new builds the struct
+    nb = ctx.method(SOCK, 'new')
+    for bi, si, var in agg_sites(nb, SOCK):
+        s = nb.blocks[bi]['s'][si]
+        names = s[2][1].get('fnames') or []
+        if 'remote_win_shift' in names:
+            n += 1
+            _check_shift(ctx, nb, bi, strip(simplify(F.origin.operand(nb, s[2][2][names.index('remote_win_shift')], bi, si))))
+    ctx.need(n >= 2, f"stores to remote_win_shift (found {n})")
+
+
+def _check_shift(ctx, b, bb, o):
+    def clamped(x):
+        x = strip(x)
+        while x[0] == 'cast':
+            x = strip(x[1])
+        c = const_of(x)
+        if c is not None:
+            return c <= 14
+        if x[0] == 'phi':
+            return all(clamped(a) for a in x[1])
+        if x[0] == 'call' and x[1].rsplit('::', 1)[-1] == 'min' and len(x[2]) == 2:
+            return any((const_of(strip(a)) is not None and const_of(strip(a)) <= 14) for a in x[2]) or any(clamped(a) for a in x[2])
+        return False
+    short = b.key.rsplit('::', 1)[-1]
+    if clamped(o):
+        ctx.ok((short, 'shift <= 14', bb), sample=dict(fn=short, stores=show(o)[:60]))
+    else:
+        ctx.bad(f"tcp::{short}|window-shift-unclamped", f"tcp {short}() stores `{show(o)[:70]}` into remote_win_shift without clamping it to 14: a receive buffer of exactly 1 GiB (the largest "
+                "new() accepts) gives shift 15, which the peer must read as 14 - the socket then accepts twice the window the peer understands as advertised", body=b, bb=bb)
